@@ -441,6 +441,21 @@ fn gen_ease(r: &mut Rng, n: usize, out: &mut dyn Write) {
         let xs: Vec<f32> = (0..32).map(|_| match r.below(4) { 0 => r.below(1025) as f32 / 1024.0, _ => r.unit_f32() }).collect();
         writeln!(out, "ease {} {}", name, xs.iter().map(|x| b(*x)).collect::<Vec<_>>().join(" ")).unwrap();
     }
+    // "a custom easing is used as given": `Easing::Custom(f).calc(x)` against `f.calc(x)` called directly, with other
+    // easings (custom and built-in) evaluated at the very same x immediately before — any state shared between
+    // calls (a memo keyed on the variant, a per-thread cache) shows up as a difference
+    let customs = ["c0", "c1", "c2", "c3"];
+    for i in 0..(n / 4).max(60) {
+        let x = if i % 3 == 0 { r.below(1025) as f32 / 1024.0 } else { r.unit_f32() };
+        let a = r.pick(&customs);
+        let mut c = r.pick(&customs);
+        while c == a { c = r.pick(&customs); }
+        let first = if r.chance(1, 3) { r.pick(&all) } else { a.to_string() };
+        writeln!(out, "ease {} {}", first, b(x)).unwrap();
+        writeln!(out, "ease {} {}", c, b(x)).unwrap();
+        writeln!(out, "easeraw {} {}", c, b(x)).unwrap();
+        writeln!(out, "# eq C13 1 2").unwrap();
+    }
 }
 
 fn gen_pos(r: &mut Rng, n: usize, out: &mut dyn Write) {
@@ -800,6 +815,43 @@ fn gen_anim6(r: &mut Rng, n: usize, out: &mut dyn Write) {
         writeln!(out, "anim 0 {} {} {} {} {}", shape, nstates, s0, v0.join(" "), toks.join(" ")).unwrap();
         writeln!(out, "anim 1 {} {} {} {} {}", shape, nstates, s0, v0.join(" "), toks.join(" ")).unwrap();
         let parts_pool = [0.0f32, 0.0625, 0.125, 0.25, 0.5, 1.0, 2.0, 0.375, 4.0];
+        // directed pause / rest / resume pattern: an animated state A is left at position P for a state without a
+        // timeline, the animator rests there for R = P + d, returns to A, and the twins then cover d in one step
+        // resp. in two halves — so the clock of one twin passes through values it has shown before (R) while the
+        // other's does not.  Anything keyed on "the position did not change" shows up as a difference.
+        let animated: Vec<usize> = (0..nstates).filter(|i| toks[*i] != "-").collect();
+        let resting: Vec<usize> = (0..nstates).filter(|i| toks[*i] == "-").collect();
+        if !animated.is_empty() && !resting.is_empty() && r.chance(2, 3) {
+            let a = animated[r.below(animated.len() as u64) as usize];
+            let u = resting[r.below(resting.len() as u64) as usize];
+            for rounds in 0..(1 + r.below(2)) {
+                let _ = rounds;
+                for id in 0..2 { writeln!(out, "set {} {}", id, a).unwrap(); }
+                writeln!(out, "# eq C06 1 2").unwrap();
+                let p1 = r.pick(&parts_pool[1..]); let p2 = r.pick(&parts_pool);
+                writeln!(out, "adv 0 {}", b(p1)).unwrap(); writeln!(out, "adv 0 {}", b(p2)).unwrap();
+                writeln!(out, "adv 1 {}", b(p1 + p2)).unwrap();
+                writeln!(out, "# eq C06 1 2").unwrap();
+                for id in 0..2 { writeln!(out, "set {} {}", id, u).unwrap(); }
+                writeln!(out, "# eq C06 1 2").unwrap();
+                let d = r.pick(&parts_pool[1..]);
+                let rest = p1 + p2 + d;
+                writeln!(out, "adv 0 {}", b(p1 + p2)).unwrap(); writeln!(out, "adv 0 {}", b(d)).unwrap();
+                writeln!(out, "adv 1 {}", b(rest)).unwrap();
+                writeln!(out, "# eq C06 1 2").unwrap();
+                for id in 0..2 { writeln!(out, "set {} {}", id, a).unwrap(); }
+                writeln!(out, "# eq C06 1 2").unwrap();
+                let single = r.below(2);     // which twin covers d in one step
+                writeln!(out, "adv {} {}", single, b(d)).unwrap();
+                writeln!(out, "adv {} {}", 1 - single, b(d * 0.5)).unwrap();
+                writeln!(out, "adv {} {}", 1 - single, b(d * 0.5)).unwrap();
+                writeln!(out, "# eq C06 1 3").unwrap();
+                if r.chance(1, 2) {
+                    writeln!(out, "adv 0 0").unwrap();
+                    writeln!(out, "# eqprev C06").unwrap();
+                }
+            }
+        }
         for _ in 0..(3 + r.below(5)) {
             let k = 1 + r.below(6) as usize;
             let parts: Vec<f32> = (0..k).map(|_| r.pick(&parts_pool)).collect();
